@@ -561,10 +561,10 @@ func (in *c16Tpt) Key() string     { return in.k }
 func (in *c16Tpt) Outcome() string { return in.outcome }
 
 func c16TptPart(name string, t *testing.T) explore.Part {
-	return explore.BFSPart(name, func(e explore.Env) explore.BFSSpec {
+	return c16Part(name, func(e explore.Env) explore.BFSSpec {
 		maxT, capSeq, depth := 3, uint64(3), 6
 		if e.Thorough() {
-			maxT, capSeq, depth = 4, 5, 8
+			maxT, capSeq, depth = 4, 4, 7
 		}
 		return explore.BFSSpec{
 			New: func() explore.Instance {
